@@ -196,4 +196,24 @@ impl<T, A: Allocator> Drop for RawIntoIter<T, A> {
          edits=[("src/external_trait_impls/serde.rs", "                        values.insert(key, value);\n                    }\n\n                    Ok(values)\n                }\n            }\n\n            let visitor = MapVisitor {", "                        values.entry(key).or_insert(value);\n                    }\n\n                    Ok(values)\n                }\n            }\n\n            let visitor = MapVisitor {")]),
     dict(name="c20-in_place-no-clear", checks=["C20"], desc="deserialize_in_place does not clear the set first",
          edits=[("src/external_trait_impls/serde.rs", "                    self.0.clear();\n                    self.0.reserve", "                    self.0.reserve")]),
+    # ---- C19
+    dict(name="c19-split-mid-unaligned", checks=["C19"], desc="RawIterRange::split does not round the midpoint to a group",
+         edits=[(RAW, "                let mid = (len / 2) & !(Group::WIDTH - 1);", "                let mid = len / 2;")]),
+    dict(name="c19-pardrain-split-no-forget", checks=["C19"], desc="ParDrainProducer::split drops self (remaining elements dropped twice)",
+         edits=[("src/external_trait_impls/rayon/raw.rs", "        let (left, right) = self.iter.clone().split();\n        mem::forget(self);", "        let (left, right) = self.iter.clone().split();")]),
+    dict(name="c19-pardrain-no-drop", checks=["C19"], desc="ParDrainProducer::drop does not drop the undelivered remainder",
+         edits=[("src/external_trait_impls/rayon/raw.rs", "        // Drop all remaining elements\n        if mem::needs_drop::<T>() {", "        // Drop all remaining elements\n        if false && mem::needs_drop::<T>() {")]),
+    dict(name="c19-split-tail-one-group-late", checks=["C19"], desc="split tail starts one group too late (a group is visited by neither half)",
+         edits=[(RAW, "                self.end = self.next_ctrl.add(mid);\n                debug_assert_eq!(self.end.add(Group::WIDTH), tail.next_ctrl);", "                self.end = self.next_ctrl.add(mid).sub(if mid >= Group::WIDTH { Group::WIDTH } else { 0 });")]),
+    # ---- C16
+    dict(name="c16-itermut-send-drops-k", checks=["C16"], desc="IterMut is Send without K: Send",
+         edits=[(MAP, "unsafe impl<K: Send, V: Send> Send for IterMut<'_, K, V> {}", "unsafe impl<K, V: Send> Send for IterMut<'_, K, V> {}")]),
+    dict(name="c16-itermut-covariant", checks=["C16"], desc="IterMut marker is covariant in V",
+         edits=[(MAP, "    // To ensure invariance with respect to V\n    marker: PhantomData<(&'a K, &'a mut V)>,\n}\n\n// We override the default Send impl which has K: Sync instead of K: Send. Both", "    // To ensure invariance with respect to V\n    marker: PhantomData<(&'a K, &'a V)>,\n}\n\n// We override the default Send impl which has K: Sync instead of K: Send. Both")]),
+    dict(name="c16-iter-unbound-lifetime", checks=["C16"], desc="HashMap::iter returns an iterator with an unbound lifetime",
+         edits=[(MAP, "    pub fn iter(&self) -> Iter<'_, K, V> {", "    pub fn iter<'x>(&self) -> Iter<'x, K, V> {")]),
+    dict(name="c16-table-occupied-entry-sync-unbounded", checks=["C16"], desc="hash_table::OccupiedEntry is Sync for any T",
+         edits=[("src/table.rs", "unsafe impl<T, A> Sync for OccupiedEntry<'_, T, A>\nwhere\n    T: Sync,", "unsafe impl<T, A> Sync for OccupiedEntry<'_, T, A>\nwhere")]),
+    dict(name="c16-find_mut-shared-self", checks=["C16"], desc="HashTable::iter_hash_mut borrows the table shared",
+         edits=[("src/table.rs", "    pub fn iter_hash_mut(&mut self, hash: u64) -> IterHashMut<'_, T> {", "    pub fn iter_hash_mut(&self, hash: u64) -> IterHashMut<'_, T> {")]),
 ]
